@@ -76,6 +76,23 @@ ROOTS = {
                "inst": ["P[1]", "P[1].Q[2]", "P(1).Q(2)", "P[1].Q(m=2)", "P[2].Q[2]"],
                "same": [["P[1].Q[2]", "P(1).Q(2)", "P[1].Q(m=2)"]],
                "probes": ["P[1].Q[2].qc()", "P[2].Q[2].qc()", "P[1].c()"]},
+    # same-named grandchildren under different children, and a child whose own child has the same name
+    "grand": {"spaces": {"P": {"formula": "lambda i: None", "refs": {"r2": 1}, "cells": CELLS_P,
+                               "spaces": {"B": {"spaces": {"C": {"cells": {"g": "lambda: i + 1000"}}}},
+                                          "D": {"spaces": {"C": {"cells": {"g": "lambda: i + 2000"}}}},
+                                          "Q": {"cells": {"g": "lambda: i + 3000"},
+                                                "spaces": {"Q": {"cells": {"g": "lambda: i + 4000"}}}}}}},
+              "refs": {"G": 5},
+              "inst": ["P[1]", "P(1)", "P[1].B.C", "P[1].D.C", "P[1].Q", "P[1].Q.Q", "P[2]"],
+              "same": [["P[1]", "P(1)"]],
+              "distinct": [["P[1].B.C", "P[1].D.C"], ["P[1].Q", "P[1].Q.Q"]],
+              "probes": ["P[1].B.C.g()", "P[1].D.C.g()", "P[1].Q.g()", "P[1].Q.Q.g()", "P[1].c()"]},
+    # a parametrised sub space deriving its cells from a base
+    "inherited": {"spaces": {"Base": {"refs": {"r2": 1}, "cells": {"foo": "lambda x: x + r2", "bar": "lambda: foo(1) * 2"}},
+                             "P": {"bases": ["Base"], "formula": "lambda i: None"}},
+                  "refs": {"G": 5},
+                  "inst": ["P[1]", "P(1)", "P[2]"], "same": [["P[1]", "P(1)"]],
+                  "probes": ["P[1].foo(3)", "P[2].bar()", "P.foo(3)", "Base.foo(3)"]},
 }
 
 
@@ -102,6 +119,17 @@ def alphabet(rootname):
     if rootname == "nested":
         ops += [py("m.P.Q.qc.formula = 'lambda: 88'"), py("m.P.Q.r3 = 9"), py("del m.P.Q"),
                 py("m.P.Q.formula = 'lambda m, n=0: None'"), py("del m.P[1].Q[2]")]
+    if rootname == "grand":
+        ops = [o for o in ops if ".d" not in o["code"] and "c9" not in o["code"]]
+        ops += [py("m.P.B.C.g.formula = 'lambda: i + 1001'"), py("m.P.Q.Q.g.formula = 'lambda: i + 4001'"),
+                py("del m.P.D"), py("m.P.Q.g.is_cached = False")]
+    if rootname == "inherited":
+        ops = [o for o in ops if "m.P.c" not in o["code"] and "m.P.d" not in o["code"] and ".c[" not in o["code"]
+               and ".c." not in o["code"]]
+        ops += [py("m.Base.foo.formula = 'lambda x: x + r2 + 100'"), py("m.Base.foo.is_cached = False"),
+                py("m.Base.r2 = 2"), py("m.Base.new_cells('baz', formula='lambda: 1')"), py("del m.Base.bar"),
+                py("m.P.foo.formula = 'lambda x: x + 500'"), py("m.P.remove_bases(m.Base)"),
+                py("m.Base.foo.rename('foo2')"), py("m.P[1].foo[3] = 77")]
     if rootname == "one":
         ops += [py("m.P.T.c2.formula = 'lambda: 8'"), py("del m.P.T"), py("m.P.T.new_cells('z', formula='lambda: 0')")]
     return ops
@@ -209,6 +237,14 @@ def run_history(rootname, hist):
             groups.append(objs[0])
         if not viols and len(groups) == 2 and groups[0] is groups[1]:
             bad("identity-distinct", {"groups": r["same"]}, "different arguments give different instances")
+        for pair in r.get("distinct", []):
+            if viols:
+                break
+            objs = [safe(lambda e=e: eval("m." + e, {"m": m})) for e in pair]
+            if any(isinstance(o, str) for o in objs):
+                continue
+            if objs[0] is objs[1]:
+                bad("identity-distinct", {"expressions": pair}, "different spaces of the dynamic tree are different objects")
         # old handles that are alive must be the object currently returned for their name
         if not viols:
             now2 = reachable(m)
